@@ -234,6 +234,9 @@ impl Pol {
             Pol::Thresh(k, xs) => {
                 // all k-subsets
                 let n = xs.len();
+                if n > 20 {
+                    return None; // too many k-subsets to enumerate: the caller treats None as "not judged"
+                }
                 let sub: Vec<Vec<Vec<Atom>>> = {
                     let mut v = vec![];
                     for x in xs {
